@@ -85,6 +85,15 @@ class Concat(Expr):
                 **self._kwargs,
             )
         )
+        if self.axis == 0 and all(is_dataframe_like(m) for m in metas):
+            # methods.concat returns the columns of the first frame, whatever
+            # the join, as soon as that frame has a categorical column
+            columns = [m.columns for m in metas]
+            if not all(cols.equals(columns[0]) for cols in columns[1:]):
+                expected = make_meta(pd.concat(metas, join=self.join))
+                for col in expected.columns.difference(meta.columns):
+                    meta[col] = expected[col]
+                meta = meta[expected.columns]
         if (
             self.axis == 0
             and meta.index.name is not None
@@ -396,12 +405,18 @@ class StackPartitionInterleaved(StackPartition):
         kwargs["ignore_order"] = self.ignore_order
 
         dfs = self._frames
+        func, head = methods.concat, []
+        if self.axis == 0 and self.ndim == 2:
+            if any(df.ndim < 2 or list(df.columns) != self.columns for df in dfs):
+                # methods.concat would return the columns of the first frame
+                # if that one has a categorical column (see Concat._meta)
+                func, head = _align_partition, [strip_unknown_categories(self._meta)]
         for i in range(self.npartitions):
             dsk[(self._name, i)] = (
                 apply,
-                methods.concat,
+                func,
                 [
-                    [(df._name, i) for df in dfs],
+                    head + [(df._name, i) for df in dfs],
                     self.axis,
                     self.join,
                     False,
